@@ -27,7 +27,14 @@ bool ro_apply(int fn, const cbor_item_t* it, unsigned char* out, size_t outn) {
   cbor_type t = cbor_typeof(it);
   switch (fn) {
     case RO_SERIALIZE: s += cbor_serialize(it, out, outn); break;
-    case RO_SERIALIZE_SMALL: s += cbor_serialize(it, out, outn ? (outn - 1) / 2 : 0); s += cbor_serialize(it, out, 0); break;
+    case RO_SERIALIZE_SMALL: {
+      s += cbor_serialize(it, out, outn ? (outn - 1) / 2 : 0); s += cbor_serialize(it, out, 0);
+      /* the refusal may come at any member: every buffer size below the item's own size, for items of up to 96 bytes
+       * (and the typed serializer with each of them) */
+      size_t sz = cbor_serialized_size(it);
+      if (sz && sz <= 96 && sz <= outn) for (size_t n = 1; n < sz; n++) { s += cbor_serialize(it, out, n); if ((n & 3) == 1 && t == CBOR_TYPE_ARRAY) s += cbor_serialize_array(it, out, n); else if ((n & 3) == 1 && t == CBOR_TYPE_MAP) s += cbor_serialize_map(it, out, n); }
+      break;
+    }
     case RO_SERIALIZE_TYPED:
       switch (t) {
         case CBOR_TYPE_UINT: s += cbor_serialize_uint(it, out, outn); break;
